@@ -459,4 +459,406 @@ Section Proofs.
       destruct (IH (measure s') ltac:(lia) s' eq_refl (inv_step _ _ Hi Hs)) as [n [s'' [Hss Ht]]].
       exists (S n), s''. split; [econstructor; eauto|exact Ht].
   Qed.
+
+  (* ================= the executable step function only takes steps of the relation ================= *)
+  Theorem exec_sound l s s' : exec beh e0 l s = Some s' -> step s s'.
+  Proof.
+    destruct l as [|j| |i|i|i|i|i| | | |]; cbn [exec]; intros H.
+    - destruct (ctx s) eqn:E; [discriminate|]. inversion H; subst. apply StCancel. exact E.
+    - destruct (rng s) as [rem| | |] eqn:Er; try discriminate.
+      destruct (nth_error rem j) as [[p ns]|] eqn:En; try discriminate. inversion H; subst. eapply StStart; eauto.
+    - destruct (rng s) as [rem| | |] eqn:Er; try discriminate.
+      destruct rem as [|r rem].
+      + inversion H; subst. eapply StWait; eauto.
+      + destruct (ctx s) eqn:Ec; try discriminate. inversion H; subst. rewrite <- Ec. eapply StWait; eauto.
+    - destruct (nth_error (tasks s) i) as [t|] eqn:En; try discriminate.
+      destruct (tstage t) eqn:Es; try discriminate. destruct (tnodes t) as [|n rest] eqn:Et; try discriminate.
+      inversion H; subst. eapply StCall; eauto.
+    - destruct (nth_error (tasks s) i) as [t|] eqn:En; try discriminate.
+      destruct (tstage t) eqn:Es; try discriminate. destruct (tnodes t) as [|n rest] eqn:Et; try discriminate.
+      inversion H; subst. eapply StRet; eauto.
+    - destruct (nth_error (tasks s) i) as [t|] eqn:En; try discriminate.
+      destruct (coll s) as [acc|acc|] eqn:Ec; try discriminate.
+      destruct (tstage t) eqn:Es; try discriminate. inversion H; subst. eapply StHandoff; eauto.
+    - destruct (nth_error (tasks s) i) as [t|] eqn:En; try discriminate.
+      destruct (tstage t) eqn:Es; try discriminate. destruct (ctx s) eqn:Ec; try discriminate.
+      inversion H; subst. rewrite <- Ec. eapply StAbort; eauto.
+    - destruct (nth_error (tasks s) i) as [t|] eqn:En; try discriminate.
+      destruct (tstage t) eqn:Es; try discriminate. inversion H; subst. eapply StExit; eauto.
+    - destruct (rng s) eqn:Er; try discriminate. destruct (wg s) eqn:Ew; try discriminate.
+      inversion H; subst. rewrite <- Ew. apply StClose; auto.
+    - destruct (coll s) as [acc|acc|] eqn:Ec; try discriminate. destruct (ctx s) eqn:Ex; try discriminate.
+      inversion H; subst. rewrite <- Ex. eapply StCollCancel; eauto.
+    - destruct (coll s) as [acc|acc|] eqn:Ec; try discriminate. destruct (rng s) eqn:Er; try discriminate.
+      inversion H; subst. rewrite <- Er. eapply StCollClosed; eauto.
+    - destruct (coll s) as [acc|acc|] eqn:Ec; try discriminate. inversion H; subst. eapply StReturn; eauto.
+  Qed.
+
+  (* and every step of the relation is one the function can take *)
+  Theorem exec_complete s s' : step s s' -> exists l, exec beh e0 l s = Some s'.
+  Proof.
+    intros H. step_cases H.
+    - exists LCancel. cbn. rewrite Hc. reflexivity.
+    - exists (LStart j). cbn. rewrite Hr, Hn. reflexivity.
+    - exists LWait. cbn. rewrite Hr. destruct Hw as [->|Hw]; [reflexivity|]. rewrite Hw. destruct rem; reflexivity.
+    - exists (LCall i). cbn. rewrite Hn, Hs, Ht. reflexivity.
+    - exists (LRet i). cbn. rewrite Hn, Hs, Ht. reflexivity.
+    - exists (LHandoff i). cbn. rewrite Hn, Hc, Hs. reflexivity.
+    - exists (LAbort i). cbn. rewrite Hn, Hs, Hc. reflexivity.
+    - exists (LExit i). cbn. rewrite Hn, Hs. reflexivity.
+    - exists LClose. cbn. rewrite Hr, Hw. reflexivity.
+    - exists LCollCancel. cbn. rewrite Hc, Hx. reflexivity.
+    - exists LCollClosed. cbn. rewrite Hc, Hr. reflexivity.
+    - exists LReturn. cbn. rewrite Hc. reflexivity.
+  Qed.
+
+  (* ================= C01: what one traversal calls ================= *)
+  Fixpoint is_prefix {A} (eqb : A -> A -> bool) (p l : list A) : bool :=
+    match p, l with
+    | [], _ => true
+    | x :: p', y :: l' => eqb x y && is_prefix eqb p' l'
+    | _, [] => false
+    end.
+  Definition node_eqb (a b : node) : bool := N.eqb (nid a) (nid b) && N.eqb (nobj a) (nobj b) && Bool.eqb (nsink a) (nsink b).
+  Lemma node_eqb_refl a : node_eqb a a = true.
+  Proof. unfold node_eqb. rewrite !N.eqb_refl, eqb_reflx. reflexivity. Qed.
+
+  (* the nodes called are the first nodes of the pipeline, in registration order, each position once *)
+  Lemma traverse_prefix p k ns e : is_prefix node_eqb (map fst (fst (traverse p k ns e))) ns = true.
+  Proof.
+    revert k e; induction ns as [|n rest IH]; intros k e; cbn [Dispatch.traverse]; [reflexivity|].
+    destruct (beh p k e) as [e'| |x]; cbn [fst map is_prefix]; rewrite ?node_eqb_refl; try reflexivity.
+    destruct rest as [|n2 rest]; cbn [fst map is_prefix]; rewrite ?node_eqb_refl; [reflexivity|].
+    cbn [andb]. apply IH.
+  Qed.
+
+  Lemma traverse_length p k ns e : length (fst (traverse p k ns e)) <= length ns.
+  Proof.
+    revert k e; induction ns as [|n rest IH]; intros k e; cbn [Dispatch.traverse]; [cbn; lia|].
+    destruct (beh p k e) as [e'| |x]; cbn [fst length]; try lia.
+    destruct rest as [|n2 rest]; cbn [fst length]; [lia|]. specialize (IH (N.succ k) e'). cbn [length] in IH. lia.
+  Qed.
+
+  (* node k+1 is called iff node k returned an event and no error, and it is called with exactly that event *)
+  Lemma traverse_chain p k n n2 rest e :
+    traverse p k (n :: n2 :: rest) e =
+    match beh p k e with
+    | OPass e' => ((n, e) :: fst (traverse p (N.succ k) (n2 :: rest) e'), snd (traverse p (N.succ k) (n2 :: rest) e'))
+    | ODrop => ([(n, e)], Some (MComplete (nid n) (nsink n)))
+    | OErr x => ([(n, e)], Some (MWarn x))
+    end.
+  Proof. cbn [Dispatch.traverse]. destruct (beh p k e); reflexivity. Qed.
+
+  (* the first node is called with the event the traversal was started with *)
+  Lemma traverse_first p k n rest e : exists cs, fst (traverse p k (n :: rest) e) = (n, e) :: cs.
+  Proof. cbn [Dispatch.traverse]. destruct (beh p k e); try (eexists; reflexivity). destruct rest; eexists; reflexivity. Qed.
+
+  Lemma traverse_some p k ns e : ns <> [] -> exists m, snd (traverse p k ns e) = Some m.
+  Proof.
+    revert k e; induction ns as [|n rest IH]; intros k e Hne; [congruence|]. cbn [Dispatch.traverse].
+    destruct (beh p k e) as [e'| |x]; try (eexists; reflexivity).
+    destruct rest as [|n2 rest]; [eexists; reflexivity|]. cbn [snd]. apply IH. discriminate.
+  Qed.
+
+  (* what the final status of a traversal means: a warning is an error some called node really returned; a complete
+     entry names the last node called, which dropped the event or was the last node of the pipeline and returned
+     without error; its sink flag is that node's *)
+  Lemma traverse_final_spec p k ns e m : snd (traverse p k ns e) = Some m ->
+    exists pre n ev j, fst (traverse p k ns e) = pre ++ [(n, ev)] /\ In n ns /\
+      match m with
+      | MWarn x => beh p j ev = OErr x
+      | MComplete id sk => id = nid n /\ sk = nsink n /\ (beh p j ev = ODrop \/ exists e', beh p j ev = OPass e' /\ exists pre', ns = pre' ++ [n])
+      end.
+  Proof.
+    revert k e; induction ns as [|n rest IH]; intros k e H; cbn [Dispatch.traverse] in *; [discriminate|].
+    destruct (beh p k e) as [e'| |x] eqn:Eb.
+    - destruct rest as [|n2 rest].
+      + cbn in H. inversion H; subst. exists [], n, e, k. cbn. split; [reflexivity|]. split; [auto|].
+        split; [reflexivity|]. split; [reflexivity|]. right. exists e'. split; [exact Eb|]. exists []. reflexivity.
+      + cbn [snd fst] in *. destruct (IH _ _ H) as [pre [n' [ev [j [Hf [Hin Hm]]]]]].
+        exists ((n, e) :: pre), n', ev, j. rewrite Hf. split; [reflexivity|]. split; [right; exact Hin|].
+        destruct m as [x|id sk]; [exact Hm|]. destruct Hm as [H1 [H2 H3]]. split; [exact H1|]. split; [exact H2|].
+        destruct H3 as [H3|[e2 [H3 [pre' H4]]]]; [left; exact H3|]. right. exists e2. split; [exact H3|].
+        exists (n :: pre'). rewrite H4. reflexivity.
+    - cbn in H. inversion H; subst. exists [], n, e, k. cbn. split; [reflexivity|]. split; [auto|]. auto.
+    - cbn in H. inversion H; subst. exists [], n, e, k. cbn. split; [reflexivity|]. split; [auto|]. exact Eb.
+  Qed.
+
+  (* ================= ghost invariants: every invocation is a prefix of its pipeline's traversal ================= *)
+  Definition fin_of (t : task) : option fin := match tstage t with SFin f | SDone f => Some f | _ => None end.
+  Definition is_head (t : task) : bool := match fin_of t with Some FSpawned => false | _ => true end.
+  Definition heads (l : list task) : list task := filter is_head l.
+  Definition key (t : task) : root := (tpipe t, tall t).
+  Definition whole (t : task) : list call * option msg := traverse (tpipe t) 0%N (tall t) e0.
+  Definition here (t : task) : list call * option msg := traverse (tpipe t) (tpos t) (tnodes t) (tev t).
+
+  Definition tinv (t : task) : Prop :=
+    match tstage t with
+    | SNew => whole t = (tcalls t ++ fst (here t), snd (here t))
+    | SRun => exists n rest cs, tnodes t = n :: rest /\ tcalls t = cs ++ [(n, tev t)] /\ whole t = (cs ++ fst (here t), snd (here t))
+    | SSend m | SFin (FSent m) | SDone (FSent m) => whole t = (tcalls t, Some m)
+    | SFin FAborted | SDone FAborted => exists m, whole t = (tcalls t, Some m)
+    | SFin FSpawned | SDone FSpawned => exists rest, fst (whole t) = tcalls t ++ rest
+    end.
+  Definition all_tinv (s : st) : Prop := forall t, In t (tasks s) -> tinv t.
+
+  Lemma tinv_node_return t n rest : tstage t = SRun -> tnodes t = n :: rest -> tinv t ->
+    tinv (fst (node_return t n rest)) /\ forall c, snd (node_return t n rest) = Some c -> tinv c.
+  Proof.
+    intros Hs Hn Hi. unfold tinv in Hi. rewrite Hs in Hi. destruct Hi as [n' [rest' [cs [Hn' [Hc Hw]]]]].
+    rewrite Hn in Hn'. inversion Hn'; subst n' rest'. clear Hn'.
+    unfold here in Hw. rewrite Hn in Hw. cbn [Dispatch.traverse] in Hw.
+    unfold Dispatch.node_return. destruct (beh (tpipe t) (tpos t) (tev t)) as [e'| |x].
+    - destruct rest as [|n2 rest].
+      + cbn [fst snd] in *. split; [|discriminate]. unfold tinv. cbn [with_stage tstage]. unfold whole in *. cbn [with_stage tpipe tall tcalls].
+        rewrite Hw, Hc. reflexivity.
+      + cbn [fst snd] in *. split.
+        * unfold tinv. cbn [with_stage tstage]. unfold whole in *. cbn [with_stage tpipe tall tcalls]. rewrite Hw. cbn [fst].
+          eexists. rewrite Hc. rewrite <- app_assoc. reflexivity.
+        * intros c Hcc. inversion Hcc; subst c. unfold tinv. cbn [child_of tstage]. unfold whole, here in *.
+          cbn [child_of tpipe tall tcalls tpos tnodes tev]. rewrite Hw, Hc. rewrite <- app_assoc. reflexivity.
+    - cbn [fst snd] in *. split; [|discriminate]. unfold tinv. cbn [with_stage tstage]. unfold whole in *. cbn [with_stage tpipe tall tcalls].
+      rewrite Hw, Hc. reflexivity.
+    - cbn [fst snd] in *. split; [|discriminate]. unfold tinv. cbn [with_stage tstage]. unfold whole in *. cbn [with_stage tpipe tall tcalls].
+      rewrite Hw, Hc. reflexivity.
+  Qed.
+
+  Lemma all_tinv_step s s' : all_tinv s -> step s s' -> all_tinv s'.
+  Proof.
+    intros Ha H. step_cases H; unfold all_tinv in *; cbn [tasks]; auto.
+    - intros t Hin. apply in_app_or in Hin as [Hin|[<-|[]]]; auto.
+      unfold tinv. cbn [new_root tstage]. unfold whole, here. cbn [new_root tpipe tall tcalls tpos tnodes tev app]. apply surjective_pairing.
+    - intros t0 Hin. apply In_upd in Hin as [->|Hin]; auto.
+      pose proof (Ha t (nth_error_In _ _ Hn)) as Hi. unfold tinv in *. rewrite Hs in Hi. cbn [called tstage].
+      exists n, rest, (tcalls t). cbn [called tnodes tcalls tev]. split; [exact Ht|]. split; [reflexivity|]. exact Hi.
+    - pose proof (tinv_node_return t n rest Hs Ht (Ha t (nth_error_In _ _ Hn))) as [H1 H2].
+      intros t0 Hin. apply in_app_or in Hin as [Hin|Hin].
+      + apply In_upd in Hin as [->|Hin]; auto.
+      + destruct (snd (node_return t n rest)) as [c|]; cbn in Hin; [|contradiction]. destruct Hin as [<-|[]]. apply H2. reflexivity.
+    - intros t0 Hin. apply In_upd in Hin as [->|Hin]; auto.
+      pose proof (Ha t (nth_error_In _ _ Hn)) as Hi. unfold tinv in *. rewrite Hs in Hi. cbn. exact Hi.
+    - intros t0 Hin. apply In_upd in Hin as [->|Hin]; auto.
+      pose proof (Ha t (nth_error_In _ _ Hn)) as Hi. unfold tinv in *. rewrite Hs in Hi. cbn. eauto.
+    - intros t0 Hin. apply In_upd in Hin as [->|Hin]; auto.
+      pose proof (Ha t (nth_error_In _ _ Hn)) as Hi. unfold tinv in *. rewrite Hs in Hi. cbn. exact Hi.
+  Qed.
+
+  (* ---------- what the collector holds is exactly what finished invocations handed over ---------- *)
+  Definition collected (s : st) : list msg :=
+    match coll s with
+    | CCollect acc | CExit acc => acc
+    | CRet => match result s with Some (acc, _) => acc | None => [] end
+    end.
+  Definition sent_of (t : task) : list msg := match fin_of t with Some (FSent m) => [m] | _ => [] end.
+  Definition sent_msgs (l : list task) : list msg := flat_map sent_of l.
+
+  Lemma sent_msgs_upd l i t t' m : nth_error l i = Some t -> sent_of t = [] -> sent_of t' = [m] ->
+    Permutation (sent_msgs (upd_nth i t' l)) (m :: sent_msgs l).
+  Proof.
+    revert i; induction l as [|x l IH]; intros [|i] H H1 H2; cbn [nth_error upd_nth] in *; try discriminate.
+    - inversion H; subst. unfold sent_msgs. cbn [flat_map]. rewrite H1, H2. cbn. apply Permutation_refl.
+    - unfold sent_msgs in *. cbn [flat_map]. specialize (IH _ H H1 H2).
+      eapply Permutation_trans; [apply Permutation_app_head; exact IH|].
+      apply Permutation_sym. apply Permutation_middle.
+  Qed.
+  Lemma sent_msgs_upd_same l i t t' : nth_error l i = Some t -> sent_of t = sent_of t' ->
+    sent_msgs (upd_nth i t' l) = sent_msgs l.
+  Proof.
+    revert i; induction l as [|x l IH]; intros [|i] H H1; cbn [nth_error upd_nth] in *; try discriminate.
+    - inversion H; subst. unfold sent_msgs. cbn [flat_map]. rewrite H1. reflexivity.
+    - unfold sent_msgs in *. cbn [flat_map]. rewrite (IH _ H H1). reflexivity.
+  Qed.
+
+  Definition cinv (s : st) : Prop :=
+    Permutation (collected s) (sent_msgs (tasks s)) /\ (coll s = CRet -> result s <> None).
+
+  Lemma cinv_step s s' : cinv s -> step s s' -> cinv s'.
+  Proof.
+    intros [Hp Hres] H. step_cases H; unfold cinv, collected in *; cbn [coll result tasks] in *.
+    - split; assumption.
+    - split; [|assumption]. unfold sent_msgs in *. rewrite flat_map_app. cbn. rewrite app_nil_r. exact Hp.
+    - split; assumption.
+    - split; [|assumption]. rewrite (sent_msgs_upd_same _ _ t); auto. unfold sent_of, fin_of. cbn [called tstage]. rewrite Hs. reflexivity.
+    - split; [|assumption]. unfold sent_msgs in *. rewrite flat_map_app. fold (sent_msgs (upd_nth i (fst (node_return t n rest)) (tasks s))).
+      rewrite (sent_msgs_upd_same _ _ t); auto.
+      + destruct (node_return_cases t n rest) as [[m0 E]|[e' [Hne E]]]; rewrite E; cbn; rewrite app_nil_r; exact Hp.
+      + unfold sent_of at 1, fin_of. rewrite Hs.
+        destruct (node_return_cases t n rest) as [[m0 E]|[e' [Hne E]]]; rewrite E; reflexivity.
+    - split; [|discriminate]. rewrite Hc in Hp.
+      eapply Permutation_trans; [|apply Permutation_sym; eapply (sent_msgs_upd _ _ t _ m); eauto].
+      + eapply Permutation_trans; [apply Permutation_sym; apply Permutation_cons_append|].
+        apply perm_skip. exact Hp.
+      + unfold sent_of, fin_of. rewrite Hs. reflexivity.
+    - split; [|assumption].
+      rewrite (sent_msgs_upd_same _ _ t); auto. unfold sent_of, fin_of. cbn [with_stage tstage]. rewrite Hs. reflexivity.
+    - split; [|assumption].
+      rewrite (sent_msgs_upd_same _ _ t); auto. unfold sent_of, fin_of. cbn [with_stage tstage]. rewrite Hs. reflexivity.
+    - split; assumption.
+    - split; [|discriminate]. rewrite Hc in Hp. exact Hp.
+    - split; [|discriminate]. rewrite Hc in Hp. exact Hp.
+    - split; [|discriminate]. rewrite Hc in Hp. exact Hp.
+  Qed.
+
+  (* ---------- heads: the invocation that currently carries each started traversal ---------- *)
+  Section FlatHeads.
+    Context {A : Type} (g : task -> list A).
+    Definition fm (l : list task) : list A := flat_map g (heads l).
+
+    Lemma fm_cons t l : fm (t :: l) = (if is_head t then g t else []) ++ fm l.
+    Proof. unfold fm, heads. cbn [filter]. destruct (is_head t); reflexivity. Qed.
+    Lemma fm_app l1 l2 : fm (l1 ++ l2) = fm l1 ++ fm l2.
+    Proof. unfold fm, heads. rewrite filter_app, flat_map_app. reflexivity. Qed.
+
+    (* the invocation keeps its role and its contribution *)
+    Lemma fm_upd_same l i t t' : nth_error l i = Some t -> is_head t' = is_head t -> (is_head t = true -> g t' = g t) ->
+      fm (upd_nth i t' l) = fm l.
+    Proof.
+      revert i; induction l as [|x l IH]; intros [|i] H H1 H2; cbn [nth_error upd_nth] in *; try discriminate.
+      - inversion H; subst. rewrite !fm_cons. rewrite H1. destruct (is_head t); [rewrite H2; reflexivity|reflexivity].
+      - rewrite !fm_cons. rewrite (IH _ H H1 H2). reflexivity.
+    Qed.
+    (* a head extends its contribution *)
+    Lemma fm_upd_ext l i t t' x : nth_error l i = Some t -> is_head t = true -> is_head t' = true -> g t' = g t ++ x ->
+      Permutation (fm (upd_nth i t' l)) (fm l ++ x).
+    Proof.
+      revert i; induction l as [|y l IH]; intros [|i] H H1 H2 H3; cbn [nth_error upd_nth] in *; try discriminate.
+      - inversion H; subst. rewrite !fm_cons. rewrite H1, H2, H3. rewrite <- !app_assoc. apply Permutation_app_head.
+        apply Permutation_app_comm.
+      - rewrite !fm_cons. rewrite <- app_assoc. apply Permutation_app_head. apply (IH _ H H1 H2 H3).
+    Qed.
+    (* a head stops being one *)
+    Lemma fm_upd_drop l i t t' : nth_error l i = Some t -> is_head t = true -> is_head t' = false ->
+      Permutation (fm (upd_nth i t' l) ++ g t) (fm l).
+    Proof.
+      revert i; induction l as [|y l IH]; intros [|i] H H1 H2; cbn [nth_error upd_nth] in *; try discriminate.
+      - inversion H; subst. rewrite !fm_cons. rewrite H1, H2. cbn [app]. apply Permutation_app_comm.
+      - rewrite !fm_cons. rewrite <- app_assoc. apply Permutation_app_head. apply (IH _ H H1 H2).
+    Qed.
+  End FlatHeads.
+
+  Definition hkeys (l : list task) : list root := fm (fun t => [key t]) l.
+  Definition hcalls (l : list task) : list call := fm tcalls l.
+
+  (* started pipelines + pipelines still to start + pipelines skipped = the registered pipelines;
+     while the context is live nothing is skipped and no status is dropped *)
+  Record hinv (roots : list root) (s : st) : Prop := {
+    h_perm : Permutation (hkeys (tasks s) ++ roots_of (rng s) ++ skipped s) roots;
+    h_skip : match rng s with RRange _ | RInRoot _ => skipped s = [] | _ => True end;
+    h_live : ctx s = false -> skipped s = [] /\ forall t, In t (tasks s) -> fin_of t <> Some FAborted;
+    h_log : Permutation (clog s) (hcalls (tasks s));
+  }.
+
+  Lemma roots_of_resume r : roots_of (resume r) = roots_of r.
+  Proof. destruct r; reflexivity. Qed.
+
+  Lemma is_head_stage t sg : is_head (with_stage t sg) = match sg with SFin FSpawned | SDone FSpawned => false | _ => true end.
+  Proof. unfold is_head, fin_of. cbn [with_stage tstage]. destruct sg as [| | |[| |]|[| |]]; reflexivity. Qed.
+
+  Lemma hinv_step roots s s' : hinv roots s -> step s s' -> hinv roots s'.
+  Proof.
+    intros [Hp Hsk Hlv Hlog] H. step_cases H.
+    - (* cancel *) constructor; cbn [ctx rng tasks skipped clog]; auto; try discriminate.
+    - (* start *)
+      assert (Hh : is_head (new_root e0 p ns) = true) by reflexivity.
+      constructor; cbn [ctx rng tasks skipped clog roots_of].
+      + unfold hkeys in *. rewrite fm_app. rewrite Hr in Hp. cbn [roots_of] in Hp.
+        unfold fm at 2. unfold heads. cbn [filter]. rewrite Hh. cbn [flat_map app key new_root tpipe tall].
+        eapply Permutation_trans; [|exact Hp]. rewrite <- app_assoc. apply Permutation_app_head. cbn [app].
+        rewrite Hr in Hsk. rewrite Hsk. rewrite !app_nil_r. apply nth_del_perm. exact Hn.
+      + rewrite Hr in Hsk. exact Hsk.
+      + intros Hc. destruct (Hlv Hc) as [H1 H2]. split; [exact H1|].
+        intros t Hin. apply in_app_or in Hin as [Hin|[<-|[]]]; auto. cbn. discriminate.
+      + unfold hcalls in *. rewrite fm_app. unfold fm at 2. unfold heads. cbn [filter]. rewrite Hh. cbn. rewrite app_nil_r. exact Hlog.
+    - (* wait *) constructor; cbn [ctx rng tasks skipped clog roots_of].
+      + rewrite Hr in Hp, Hsk. cbn [roots_of] in Hp. rewrite Hsk in Hp. rewrite app_nil_r in Hp. cbn [app]. exact Hp.
+      + exact I.
+      + intros Hc. destruct (Hlv Hc) as [H1 H2]. split; [|exact H2].
+        destruct Hw as [Hw|Hw]; [exact Hw|congruence].
+      + exact Hlog.
+    - (* call *)
+      assert (Hh : is_head t = true) by (unfold is_head, fin_of; rewrite Hs; reflexivity).
+      assert (Hh' : is_head (called t n) = true) by reflexivity.
+      constructor; cbn [ctx rng tasks skipped clog].
+      + unfold hkeys in *. rewrite (fm_upd_same _ _ _ t); auto; try (rewrite Hh, Hh'; reflexivity).
+      + exact Hsk.
+      + intros Hc. destruct (Hlv Hc) as [H1 H2]. split; [exact H1|].
+        intros t0 Hin. apply In_upd in Hin as [->|Hin]; auto. cbn. discriminate.
+      + unfold hcalls in *. eapply Permutation_trans; [|apply Permutation_sym; apply (fm_upd_ext tcalls _ _ t _ [(n, tev t)] Hn Hh Hh' eq_refl)].
+        apply Permutation_app_tail. exact Hlog.
+    - (* node returned *)
+      assert (Hh : is_head t = true) by (unfold is_head, fin_of; rewrite Hs; reflexivity).
+      destruct (node_return_cases t n rest) as [[m0 E]|[e' [Hne E]]]; rewrite E; cbn [fst snd opt_list]; rewrite ?app_nil_r.
+      + constructor; cbn [ctx rng tasks skipped clog].
+        * unfold hkeys in *. rewrite (fm_upd_same _ _ _ t); auto; try (rewrite is_head_stage, Hh; reflexivity).
+        * exact Hsk.
+        * intros Hc. destruct (Hlv Hc) as [H1 H2]. split; [exact H1|].
+          intros t0 Hin. apply In_upd in Hin as [->|Hin]; auto. cbn. discriminate.
+        * unfold hcalls in *. rewrite (fm_upd_same _ _ _ t); auto; try (rewrite is_head_stage, Hh; reflexivity).
+      + assert (Hh' : is_head (with_stage t (SFin FSpawned)) = false) by reflexivity.
+        assert (Hhc : is_head (child_of t rest e') = true) by reflexivity.
+        constructor; cbn [ctx rng tasks skipped clog].
+        * unfold hkeys in *. rewrite fm_app. unfold fm at 2. unfold heads. cbn [filter]. rewrite Hhc. cbn [flat_map app].
+          eapply Permutation_trans; [|exact Hp]. apply Permutation_app_tail.
+          change [key (child_of t rest e')] with ((fun t => [key t]) t).
+          apply (fm_upd_drop (fun t => [key t]) _ _ t _ Hn Hh Hh').
+        * exact Hsk.
+        * intros Hc. destruct (Hlv Hc) as [H1 H2]. split; [exact H1|].
+          intros t0 Hin. apply in_app_or in Hin as [Hin|[<-|[]]]; [|cbn; discriminate].
+          apply In_upd in Hin as [->|Hin]; auto. cbn. discriminate.
+        * unfold hcalls in *. rewrite fm_app. unfold fm at 2. unfold heads. cbn [filter]. rewrite Hhc. cbn [flat_map app].
+          rewrite app_nil_r. cbn [child_of tcalls].
+          eapply Permutation_trans; [exact Hlog|]. apply Permutation_sym. apply (fm_upd_drop tcalls _ _ t _ Hn Hh Hh').
+    - (* handoff *)
+      assert (Hh : is_head t = true) by (unfold is_head, fin_of; rewrite Hs; reflexivity).
+      constructor; cbn [ctx rng tasks skipped clog].
+      + unfold hkeys in *. rewrite (fm_upd_same _ _ _ t); auto.
+      + exact Hsk.
+      + intros Hx. destruct (Hlv Hx) as [H1 H2]. split; [exact H1|].
+        intros t0 Hin. apply In_upd in Hin as [->|Hin]; auto. cbn. discriminate.
+      + unfold hcalls in *. rewrite (fm_upd_same _ _ _ t); auto.
+    - (* abort *)
+      assert (Hh : is_head t = true) by (unfold is_head, fin_of; rewrite Hs; reflexivity).
+      constructor; cbn [ctx rng tasks skipped clog].
+      + unfold hkeys in *. rewrite (fm_upd_same _ _ _ t); auto.
+      + exact Hsk.
+      + intros Hx. congruence.
+      + unfold hcalls in *. rewrite (fm_upd_same _ _ _ t); auto.
+    - (* exit *)
+      assert (Hh : is_head (with_stage t (SDone f)) = is_head t).
+      { rewrite is_head_stage. unfold is_head, fin_of. rewrite Hs. destruct f; reflexivity. }
+      assert (Hro : roots_of (if troot t then resume (rng s) else rng s) = roots_of (rng s))
+        by (destruct (troot t); [apply roots_of_resume|reflexivity]).
+      constructor; cbn [ctx rng tasks skipped clog].
+      + rewrite Hro. unfold hkeys in *. rewrite (fm_upd_same _ _ _ t); auto.
+      + destruct (troot t); [|exact Hsk]. destruct (rng s); cbn [resume]; auto.
+      + intros Hx. destruct (Hlv Hx) as [H1 H2]. split; [exact H1|].
+        intros t0 Hin. apply In_upd in Hin as [->|Hin]; auto.
+        specialize (H2 t (nth_error_In _ _ Hn)). unfold fin_of in *. rewrite Hs in H2. cbn. exact H2.
+      + unfold hcalls in *. rewrite (fm_upd_same _ _ _ t); auto.
+    - (* close *) constructor; cbn [ctx rng tasks skipped clog roots_of]; auto.
+      rewrite Hr in Hp. cbn [roots_of] in Hp. exact Hp.
+    - constructor; cbn [ctx rng tasks skipped clog]; auto.
+    - constructor; cbn [ctx rng tasks skipped clog]; auto.
+    - constructor; cbn [ctx rng tasks skipped clog]; auto.
+  Qed.
+
+  (* ---------- all invariants over reachable states ---------- *)
+  Record full_inv (roots : list root) (s : st) : Prop := {
+    fi_inv : inv s; fi_tinv : all_tinv s; fi_cinv : cinv s; fi_hinv : hinv roots s }.
+
+  Theorem full_inv_reach roots c0 s : roots_ok roots -> reach roots c0 s -> full_inv roots s.
+  Proof.
+    intros Hr H. induction H as [|s s' _ IH Hs].
+    - constructor.
+      + apply inv_init; assumption.
+      + intros t [].
+      + split; [apply Permutation_refl|discriminate].
+      + constructor; cbn; auto; try (rewrite app_nil_r; apply Permutation_refl);
+          try (intros _; split; [reflexivity|intros t []]).
+    - destruct IH as [I1 I2 I3 I4]. constructor.
+      + eapply inv_step; eauto.
+      + eapply all_tinv_step; eauto.
+      + eapply cinv_step; eauto.
+      + eapply hinv_step; eauto.
+  Qed.
 End Proofs.
